@@ -7,6 +7,17 @@ VERIF = os.path.dirname(os.path.dirname(os.path.abspath(__file__)))
 ENGINE = "bounded-exhaustive explorer"
 
 CLAIMED = {
+    "C01": dict(
+        level="exploration", ref="DESIGN.md §4 C01",
+        text=("Bounded-exhaustive enumeration on the real encoder and parser: every Unicode scalar value through the escaper "
+              "(expected text computed independently), all short strings over one representative per escaper branch, boundary "
+              "numbers and out-of-range big numbers, all trees with <= 5 (thorough 6) nodes under all 3^5 x 3 line-split/line-length "
+              "layouts and every option set within 2 deviations of the default, through dump/dump_pretty/operator<</encode_json for "
+              "json and ojson; four oracles per case (independent RFC 8259 reference reads the same value; own parser reads the same "
+              "model value; re-serialization byte-identical; pretty == compact modulo inter-token whitespace)."),
+        note=("Trusted: engine/rfc8259_ref.hpp and the model value. float_format/precision/bignum_format excluded as the statement says; "
+              "sign of zero and int64-vs-uint64 storage are not distinguished here."),
+        technique="bounded-exhaustive enumeration of values x option sets on the real code with round-trip, canonical-form and reference-parser oracles"),
     "C02": dict(
         level="model_checking", ref="DESIGN.md §4 C02",
         text=("Product BFS of the real json_parser (private state read with -fno-access-control, one character per update()) with a "
